@@ -15,7 +15,12 @@ type Double float64
 var _ objecttypes.Value = Double(0)
 
 func MapDouble(lexicalForm string) (Double, error) {
-	vFloat64, err := strconv.ParseFloat(xsdutil.WhiteSpaceCollapse(lexicalForm), 64)
+	lexicalForm = xsdutil.WhiteSpaceCollapse(lexicalForm)
+	if !floatLexicalRE.MatchString(lexicalForm) {
+		return Double(0), rdf.ErrLiteralLexicalFormNotValid
+	}
+
+	vFloat64, err := strconv.ParseFloat(lexicalForm, 64)
 	if err != nil {
 		return Double(0), fmt.Errorf("%w: %v", rdf.ErrLiteralLexicalFormNotValid, err)
 	}
